@@ -157,6 +157,70 @@ def _check_against_ref(sc, out, target: bytes) -> None:
         raise common.HarnessError(f"one-piece decode of scenario {sc} disagrees with ref.rpce: {bad}")
 
 
+def run_pair(case) -> dict:
+    """["pair", si, sj, cut, seed]: two async clients talk to two servers at the same time on one loop; every reply of both is cut
+    at byte ``cut`` (16 = exactly between header and body), latencies from the PRNG.  Each must decode what it decodes alone."""
+    import asyncio
+    import random as _r
+
+    import dpapi_ng._rpc as rpc
+
+    _, si, sj, cut, seed = case
+    world = W.World(seed)
+    world.default_delivery = {"mode": "cuts", "cuts": {str(k): [cut] for k in range(4)}}
+    outs = {}
+    record: list = []
+    cfgs = {}
+    for tag, sidx in (("a", si), ("b", sj)):
+        sc = SCENARIOS[sidx]
+        cfgs[tag] = _ctx_cfg(sc)
+        srv = peers.RpcServer({ECHO_IF: _handler(sc)}, drive.stub_acceptor_factory(cfgs[tag]) if sc[1] else None,
+                              {"sec_addr": "1" * (sc[2] - 1) if sc[2] else ""})
+        world.add_route("dc" + tag, 135, srv)
+
+    async def one(tag, sidx):
+        sc = SCENARIOS[sidx]
+        rec: list = []
+        try:
+            c = await rpc.async_create_rpc_connection("dc" + tag, 135, auth_protocol="negotiate" if sc[1] else None)
+            async with c:
+                ack = await c.bind(_contexts(sc))
+                val = ack if sc[0] in ("bind", "alter") else await c.request(0, 1, b"\x01\x02\x03\x04")
+            outs[tag] = drive.Outcome("ok", (val, tuple(r[2] for r in record if r[0] == "step" and r[-1] == tag)))
+        except Exception as e:  # noqa: BLE001
+            outs[tag] = drive.Outcome("raise", exc=e)
+
+    async def main():
+        lp = asyncio.get_running_loop()
+        await asyncio.gather(lp.create_task(one("a", si), name="A"), lp.create_task(one("b", sj), name="B"))
+
+    # the scripted context records which connection it belongs to through the hostname it is created for
+    def factory(username=None, password=None, hostname="unspecified", **kw):
+        from simworld import secctx
+
+        tag = hostname[-1]
+
+        class Tagged(list):
+            def append(self, item):
+                record.append(tuple(item) + (tag,))
+
+        return secctx.StubCtx(cfgs[tag], drive.SECRET, Tagged())
+
+    with world.installed(ctx_factory=factory):
+        whole = drive.classify(lambda: drive.run_async(world, main, _r.Random(seed), (1, (20, 500, 5000)[seed % 3])))
+    viol = None
+    for tag, sidx in (("a", si), ("b", sj)):
+        base, _target = baseline(sidx, "async")
+        o = outs.get(tag) or whole
+        if not o.same_as(base):
+            kind, frame = drive.exc_sig(o)
+            viol = common.violation("C14", "reassembly", "async-two-connections", kind, frame, "header-split" if cut <= 16 else "body-split",
+                                    f"two connections in flight at once, replies cut at byte {cut}: connection {tag} (scenario {SCENARIOS[sidx]}) ended {o.brief()} {o.exc!r}, alone it gives {base.brief()}")
+            break
+    return {"viol": viol, "digest": world.digest() + whole.brief(), "key": common.key_hash(case), "fired": {"seg": world.stats.get("seg", 0), "concurrent_connections": 1},
+            "probes": {"pairs": 1}, "vtime_ns": world.stats.get("vtime_ns", 0)}
+
+
 class C14(common.Check):
     id = "C14"
     level = "fault_enumeration"
@@ -164,13 +228,13 @@ class C14(common.Check):
             "with/without auth token; alter_context_resp with token; response with stub 0..5000 (clear and sealed); fault. "
             "Delivery: every partition into <=3 chunks (every pair of cut offsets) for replies <=256 bytes, all single cuts and "
             "header x body cuts for larger ones, PRNG finer partitions, EOF / RST at every byte offset (prefix whole and bytewise), "
-            "stall. Non-trivial = the delivery differs from one-piece (>=1 cut or an injected end); distinct = distinct "
+            "stall; pairs of async connections in flight at once with every reply cut at the header boundary. Non-trivial = the delivery differs from one-piece (>=1 cut or an injected end); distinct = distinct "
             "(scenario, flavour, delivery) tuple.")
     components = {"client": "real (SyncRpcClient, AsyncRpcClient, asyncio.streams, PDU codecs)", "peer": "model (ref.rpce RpcServer)",
                   "security context": "stub (StubCtx) where auth is on", "transport": "simulated (SimSocket / SimTransport on SimLoop)"}
     assumptions = ["TCP delivers bytes in order; segment boundaries and stream end are arbitrary",
                    "a sync read that can never complete is reported as 'blocks' (violation only after EOF/RST, never for a silent open peer)"]
-    required_fired = ("seg", "seg_in_header", "eof", "rst", "stall")
+    required_fired = ("seg", "seg_in_header", "eof", "rst", "stall", "pairs")
 
     def exhaustive(self, tier):
         return True
@@ -221,9 +285,19 @@ class C14(common.Check):
                 for r in range(nr):
                     out.append([si, fl, "rand", common_seed(seed, si, r), r % 3])
                 out.append([si, fl, "bytewise", 0, 0])
+        # two async connections in flight at once (different replies, cut at / around the header boundary)
+        k = 0
+        for si in range(len(SCENARIOS)):
+            for sj in range(len(SCENARIOS)):
+                if si != sj and (tier == "thorough" or (si + 2 * sj) % 5 == 0):
+                    for cut in (16, 1, 24):
+                        k += 1
+                        out.append(["pair", si, sj, cut, k])
         return out
 
     def run_case(self, case):
+        if case[0] == "pair":
+            return run_pair(case)
         si, fl, mode, a, b = case
         sc = SCENARIOS[si]
         base, target = baseline(si, fl)
@@ -266,6 +340,8 @@ class C14(common.Check):
                 "probes": probes, "vtime_ns": world.stats.get("vtime_ns", 0)}
 
     def shrink(self, case):
+        if case[0] == "pair":
+            return
         si, fl, mode, a, b = case
         # simpler scenario first, then simpler delivery
         for sj in range(si):
@@ -282,6 +358,8 @@ class C14(common.Check):
             yield [si, fl, mode, a, 0]
 
     def sample_repr(self, case, res):
+        if case[0] == "pair":
+            return {"kind": "pair", "scenarios": [SCENARIOS[case[1]], SCENARIOS[case[2]]], "cut_at_byte": case[3], "seed": case[4]}
         si, fl, mode, a, b = case
         return {"scenario": SCENARIOS[si], "flavour": fl, "delivery": [mode, a, b]}
 
